@@ -30,6 +30,16 @@ FIXED_FRAGMENTS = [
     ["zq31 = 1", "zq31 = 3 unless zq31 == 2"], ["zq32 = true ? 1 : nil", "zq33 = zq32.nil? ? 0 : zq32"], ["zq34 = [1, 2].collect { |zq35| zq35.to_s }"],
     ["zq36 = 1; zq37 = 2"], ["zq38 = (1..3)", "for zq39 in zq38", "  zq39.to_s", "end"], ["zq40 = 1", "begin", "  zq40 = 2", "rescue", "  zq40 = 3", "end"],
     ["zq41 = -> (zq42) { zq42 }", "zq41.call(1)"], ["zq43 = \"a\"", "zq44 = \"#{zq43} b\""], ["zq45 = <<~EOS", "  text", "EOS"],
+    # one diagnostic inside each kind of body: the body must still end at its own end
+    ["begin", "  100.zqnope", "rescue => zq50", "  zq51 = 2", "end"], ["begin", "  zq52 = 1", "rescue", "  100.zqnope", "ensure", "  zq53 = 2", "end"],
+    ["if 1 == 2", "  100.zqnope", "elsif 1 == 3", "  zq54 = 1", "else", "  zq54 = 2", "end"], ["unless 1 == 2", "  zq55 = 1", "else", "  100.zqnope", "end"],
+    ["zq56 = 0", "until zq56 > 2", "  100.zqnope", "  zq56 += 1", "end"], ["for zq57 in (1..3)", "  zq57.zqnope", "end"],
+    ["case 1", "when 1", "  100.zqnope", "when 2", "  zq58 = 1", "else", "  zq58 = 2", "end"],
+    ["zq59 = true ? 1 : \"s\"", "case zq59", "in Integer => zq60", "  zq60.zqnope", "in String", "  zq61 = 1", "end"],
+    ["zq59 = true ? 1 : \"s\"", "case zq59", "in Integer => zq60", "  if zq60 > 1", "    zq61 = 1", "  end", "in String", "  while false", "  end", "end"],
+    ["zq62 = ->(zq63) { zq63.zqnope }", "zq62.call(1)"], ["zq64 = [1, 2].collect do |zq65|", "  zq65.zqnope", "  zq65", "end"],
+    ["zq66 = [", "  100.zqnope,", "  2", "]"], ["zq67 = (100.zqnope)", "zq68 = true ? 100.zqnope : 2"], ["zq69 = {a: 100.zqnope, b: 2}"],
+    ["zq70 = \"a#{100.zqnope}b\""], ["zq71 = 1", "zq71 = 100.zqnope if zq71 == 1"], ["zq72 = 100.zqnope while false"],
     ["zq46 = %w(a b)", "zq47 = :sym"], ["zq48 = 1", "zq48 += 1", "zq48 ||= 2", "zq49 = !zq48.nil?"], ["return_zq = 1 if false"],
 ]
 
